@@ -38,9 +38,11 @@ pub struct GenOpts {
     pub max_depth: usize,
     pub max_stanzas: usize,
     pub render_nodes: bool,  // may pass graph nodes to format/join/print-like rendering
+    pub node_globals: usize, // declare `global pn<i>` bound to pre-existing graph nodes (histories)
+    pub scoped_mut: bool,    // allow `var`/`set` on scoped variables (strict only)
 }
 impl GenOpts {
-    pub fn full() -> GenOpts { GenOpts { use_scoped: true, allow_scan: true, stdlib: true, globals: true, shorthands: true, inherit: true, max_depth: 3, max_stanzas: 5, render_nodes: false } }
+    pub fn full() -> GenOpts { GenOpts { use_scoped: true, allow_scan: true, stdlib: true, globals: true, shorthands: true, inherit: true, max_depth: 3, max_stanzas: 5, render_nodes: false, node_globals: 0, scoped_mut: false } }
 }
 
 pub struct Gen<'a> {
@@ -243,6 +245,12 @@ pub fn gen_program(rng: &mut Rng, opts: &GenOpts) -> Program {
             }
         }
     }
+    for i in 0..opts.node_globals {
+        let name = format!("pn{}", i);
+        preamble.push(format!("global {}", name));
+        supplied.push((name.clone(), GV::Graph(i as u32)));
+        globals.push((name, K::Node));
+    }
     let mut shorthand_names = vec![];
     if opts.shorthands && rng.chance(35) {
         let name = "sh1".to_string();
@@ -332,4 +340,40 @@ pub fn inject_faults(rng: &mut Rng, src: &str, k: usize) -> String {
         }
     }
     chars.into_iter().collect()
+}
+
+/// Self-contained statements that fail at run time (C20): returns (text lines, expected root-cause code).
+pub const RUNTIME_FAULTS: &[(&str, u32)] = &[
+    ("let zz9 = (plus \"a\" 1)", 11),
+    ("let zz9 = (nosuchfn 1)", 20),
+    ("node zz8\nattr (zz8) q = 1\nattr (zz8) q = 2", 5),
+    ("node zz8\nedge zz8 -> \"s\"", 8),
+    ("node zz8\nattr (zz8 -> zz8) w = 1", 24),
+    ("let zz9 = (not 3)", 10),
+    ("let zz9 = (format \"{}\")", 14),
+    ("let zz9 = (eq 1 \"x\")", 27),
+    ("for zz7 in (concat [1] 2) {\n}", 9),
+    ("if (not 3) {\n  node zz6\n}", 10),
+    ("if (eq 1 \"x\") {\n  node zz6\n}", 27),
+    ("scan (format \"{}\") {\n  \"x\" {\n    node zz6\n  }\n}", 14),
+    ("for zz7 in [1, 2] {\n  if (is-null (nosuchfn)) {\n  }\n}", 20),
+    ("print zz_undefined_at_runtime_is_static", 0),
+];
+/// Insert one runtime fault at a random statement position (any depth) of a random stanza.
+pub fn inject_runtime_fault(rng: &mut Rng, p: &mut Program) -> (String, u32, usize) {
+    let (text, code) = loop { let f = rng.pick(RUNTIME_FAULTS); if f.1 != 0 { break *f; } };
+    let si = rng.below(p.stanzas.len());
+    let lines: Vec<String> = p.stanzas[si].lines().map(|l| l.to_string()).collect();
+    // positions: after any line that ends with '{' (block start) — depth = indentation of that line
+    let cands: Vec<usize> = lines.iter().enumerate().filter(|(i, l)| l.trim_end().ends_with('{') && !(l.trim_start().starts_with("scan ")) && *i + 1 < lines.len()).map(|(i, _)| i).collect();
+    // prefer nested positions
+    let deep: Vec<usize> = cands.iter().copied().filter(|i| lines[*i].starts_with("  ")).collect();
+    let at = if !deep.is_empty() && rng.chance(60) { *rng.pick(&deep) } else { *rng.pick(&cands) };
+    let indent = lines[at].len() - lines[at].trim_start().len() + 2;
+    let depth = indent / 2 - 1;
+    let mut out = lines[..=at].to_vec();
+    for l in text.split('\n') { out.push(format!("{}{}", " ".repeat(indent), l)); }
+    out.extend(lines[at + 1..].iter().cloned());
+    p.stanzas[si] = out.join("\n") + "\n";
+    (text.to_string(), code, depth)
 }
